@@ -27,6 +27,8 @@ import (
 	"github.com/segmentio/kafka-go/protocol"
 	"github.com/segmentio/kafka-go/protocol/createtopics"
 	"github.com/segmentio/kafka-go/protocol/deletetopics"
+	"github.com/segmentio/kafka-go/protocol/fetch"
+	"github.com/segmentio/kafka-go/protocol/produce"
 	"github.com/segmentio/kafka-go/protocol/findcoordinator"
 	"github.com/segmentio/kafka-go/protocol/heartbeat"
 	"github.com/segmentio/kafka-go/protocol/joingroup"
@@ -116,6 +118,71 @@ func indexOf(pkg string) int {
 	return -1
 }
 
+// emitV: like emit, plus the maximum version the fake broker advertised for this API (the header version must not
+// exceed it)
+func emitV(pkg, clientID string, adv int16, want protocol.Message, raw []byte) {
+	ver := -1
+	if len(raw) >= 8 {
+		ver = int(int16(binary.BigEndian.Uint16(raw[6:8])))
+	}
+	text := msgs.Text(reflect.ValueOf(want).Elem(), nil)
+	text = strings.ReplaceAll(text, fmt.Sprint(wild), "*")
+	fmt.Printf("connreqv %d %d %d %s %s\t%s\n", indexOf(pkg), ver, adv, gen.Hex([]byte(clientID)), text, gen.Hex(raw))
+}
+
+// writerFamily drives the write.go `write*RequestV*` functions: Conn.WriteMessages (produce v2/v3/v7), ReadBatchWith
+// (fetch v2/v5/v10), ReadLastOffset (listoffsets v1) with the fake broker advertising EVERY maximum version.
+func writerFamily(r interface{ Intn(int) int }, cid string, word func() string) {
+	for adv := int16(2); adv <= 8; adv++ {
+		n := 1 + r.Intn(3)
+		var ms []kafka.Message
+		for i := 0; i < n; i++ {
+			ms = append(ms, kafka.Message{Key: []byte(word()), Value: []byte(word())})
+		}
+		raw := capture(cid, map[int16]int16{0: adv}, func(c *kafka.Conn) { c.WriteMessages(ms...) })
+		want := &produce.Request{Acks: -1, Timeout: wild, Topics: []produce.RequestTopic{{Topic: "t",
+			Partitions: []produce.RequestPartition{{Partition: 0, RecordSet: protocol.RecordSet{Records: protocol.NewRecordReader()}}}}}}
+		emitV("produce", cid, adv, want, raw)
+	}
+	for adv := int16(2); adv <= 11; adv++ {
+		off := int64(r.Intn(1000))
+		minB, maxB := 1+r.Intn(100), 1000+r.Intn(100000)
+		iso := kafka.IsolationLevel(r.Intn(2))
+		raw := capture(cid, map[int16]int16{1: adv}, func(c *kafka.Conn) {
+			c.Seek(off, kafka.SeekAbsolute|kafka.SeekDontCheck)
+			b := c.ReadBatchWith(kafka.ReadBatchConfig{MinBytes: minB, MaxBytes: maxB, IsolationLevel: iso})
+			b.Close()
+		})
+		ver := int16(-1)
+		if len(raw) >= 8 {
+			ver = int16(binary.BigEndian.Uint16(raw[6:8]))
+		}
+		// only the fields that exist in the version the header announces
+		part := fetch.RequestPartition{Partition: 0, FetchOffset: off, PartitionMaxBytes: wild} // Conn adds its fetch-response overhead to MaxBytes
+		want := &fetch.Request{ReplicaID: -1, MaxWaitTime: wild, MinBytes: int32(minB)}
+		if ver >= 3 {
+			want.MaxBytes = wild
+		}
+		if ver >= 4 {
+			want.IsolationLevel = int8(iso)
+		}
+		if ver >= 7 {
+			want.SessionEpoch = -1
+			want.ForgottenTopics = []fetch.RequestForgottenTopic{}
+		}
+		if ver >= 9 {
+			part.CurrentLeaderEpoch = -1
+		}
+		want.Topics = []fetch.RequestTopic{{Topic: "t", Partitions: []fetch.RequestPartition{part}}}
+		emitV("fetch", cid, adv, want, raw)
+	}
+	for adv := int16(1); adv <= 5; adv++ {
+		raw := capture(cid, map[int16]int16{2: adv}, func(c *kafka.Conn) { c.ReadLastOffset() })
+		emitV("listoffsets", cid, adv, &listoffsets.Request{ReplicaID: -1, Topics: []listoffsets.RequestTopic{{Topic: "t",
+			Partitions: []listoffsets.RequestPartition{{Partition: 0, CurrentLeaderEpoch: 0, Timestamp: -1}}}}}, raw)
+	}
+}
+
 func emit(pkg, clientID string, want protocol.Message, raw []byte) {
 	ver := -1
 	if len(raw) >= 8 {
@@ -188,6 +255,9 @@ func main() {
 			}
 			raw := capture(cid, map[int16]int16{3: maxv}, func(c *kafka.Conn) { c.ReadPartitions(topics...) })
 			emit("metadata", cid, &metadata.Request{TopicNames: topics, AllowAutoTopicCreation: maxv >= 6}, raw)
+		}
+		if k < 2 || gen.Thorough() {
+			writerFamily(r, cid, word)
 		}
 		// ---- ListOffsets v1 (ReadLastOffset)
 		{
